@@ -25,14 +25,14 @@ pub struct Plan {
 impl Plan {
     fn to_json(&self) -> Value {
         json!({"kind": "exchange", "n": self.n, "our_seed_hex": hex(&self.our_seed), "peer_seed": self.peer_seed,
-               "msgs_hex": self.msgs.iter().map(|m| hex(m)).collect::<Vec<_>>(), "stream": self.stream})
+               "msgs_hex": self.msgs.iter().map(|m| crate::rng::msg_hex(m)).collect::<Vec<_>>(), "stream": self.stream})
     }
     fn from_json(v: &Value) -> Option<Plan> {
         Some(Plan {
             n: v.get("n")?.as_u64()? as usize,
             our_seed: unhex(v.get("our_seed_hex")?.as_str()?)?.try_into().ok()?,
             peer_seed: v.get("peer_seed")?.as_u64()?,
-            msgs: v.get("msgs_hex")?.as_array()?.iter().map(|m| unhex(m.as_str()?)).collect::<Option<Vec<_>>>()?,
+            msgs: v.get("msgs_hex")?.as_array()?.iter().map(|m| crate::rng::msg_unhex(m.as_str()?)).collect::<Option<Vec<_>>>()?,
             stream: v.get("stream")?.as_u64()?,
         })
     }
@@ -381,6 +381,130 @@ fn mined_run(seed: u64, n: usize, idx: u64, peer_seed: u64, feat: u8) -> RunOutc
     out
 }
 
+// ---------------------------------------------------------------------------
+// deep batch: reference traffic verified by several threads at once
+// ---------------------------------------------------------------------------
+//
+// A verifier serves several peers at once. 2-5 baton-scheduled threads, each mostly with its own
+// reference public key, verify reference signatures (re-framed) in the instrumented build
+// (pre-emption at function entries). Whatever verify keeps between calls must not make a
+// reference signature fail here.
+
+fn deep_run(seed: u64, run: u64) -> RunOutcome {
+    use crate::signers::{self, Keys, Op, OpResult, WorldPlan};
+    let mut rng = Prng::new(report::run_seed(seed, "C16deep", run));
+    let mut out = RunOutcome::default();
+    out.stats.inc("runs");
+    out.stats.inc("runs.deep_concurrent_verifiers");
+    let p = codec::params(512);
+    let our_header = codec::sig_header(p);
+    // reference key pairs and signatures (the peer is not the code under test)
+    let nkeys = 3 + rng.usize_below(4);
+    let mut keys = Vec::new();
+    let mut sigs: Vec<Vec<(Vec<u8>, Vec<u8>)>> = Vec::new();
+    let mut peer_seeds = Vec::new();
+    for _ in 0..nkeys {
+        let ps = rng.next_u64();
+        peer_seeds.push(ps);
+        let (pk_b, sk_b) = Pq512::keypair(ps);
+        let (pk, sk) = match (crate::guard::guarded(|| V512::pk_from_bytes(&pk_b)), crate::guard::guarded(|| V512::sk_from_bytes(&sk_b))) {
+            (Ok(Ok(pk)), Ok(Ok(sk))) => (pk, sk),
+            _ => return out, // import failures are the exchange runs' subject
+        };
+        let mut v = Vec::new();
+        for _ in 0..6 {
+            let mlen = 1 + rng.usize_below(60);
+            let msg = rng.bytes(mlen);
+            if let Some(sg) = Pq512::sign(&msg, &sk_b, rng.next_u64()) {
+                if let Some(b) = pq::from_reference(&sg, our_header, V512::SIG_LEN) {
+                    v.push((msg, b));
+                }
+            }
+        }
+        if v.is_empty() {
+            return out;
+        }
+        keys.push((sk, pk));
+        sigs.push(v);
+    }
+    let nthreads = 2 + rng.usize_below(4);
+    let mut threads = Vec::new();
+    for _ in 0..nthreads {
+        let home = rng.usize_below(nkeys);
+        let ops: Vec<Op> = (0..20 + rng.usize_below(40))
+            .map(|_| {
+                let k = if rng.chance(5, 6) { home } else { rng.usize_below(nkeys) };
+                let (m, sg) = rng.pick(&sigs[k]).clone();
+                Op::Verify { key: k, msg: m, sig: sg }
+            })
+            .collect();
+        threads.push(ops);
+    }
+    let plan = WorldPlan { n: 512, key_seeds: Vec::new(), sched_seed: rng.next_u64(), switch_exp: Some(*rng.pick(&[2u32, 3, 4, 5, 6])), boundary: rng.below(257) as u32, threads, align: None };
+    let shared: Keys<V512> = std::sync::Arc::new(keys);
+    let (res, sched) = signers::execute::<V512>(&plan, shared);
+    if sched.free_running {
+        out.stats.inc("inconclusive.schedule_infeasible");
+        return out;
+    }
+    out.stats.steps += sched.steps;
+    out.stats.add("deep.yield_points", sched.steps);
+    out.stats.add("sched.switches", sched.switches);
+    out.stats.add("sched.lock_handoffs", sched.lock_handoffs);
+    if sched.switches > 0 {
+        out.stats.interleavings.insert(sched.trace_hash);
+    }
+    'outer: for (t, tr) in res.iter().enumerate() {
+        let ops = match tr {
+            Ok(o) => o,
+            Err(u) => {
+                out.violations.push(Violation { property: PROP, class: format!("simulated verifier thread died: {}", u.signature()), detail: format!("deep run {} thread {}", run, t), replay: json!({"kind": "deep-rerun", "deep": true, "seed": seed, "run": run}), run: (1 << 41) + 100 + run });
+                break;
+            }
+        };
+        for (i, r) in ops.iter().enumerate() {
+            out.stats.evaluations += 1;
+            let bad = match r {
+                OpResult::Verified(true) => None,
+                OpResult::Verified(false) => Some("verify512 here rejects a reference signature while other threads verify under other reference keys".to_string()),
+                OpResult::Unwound(u) => Some(format!("verify512 {} on a reference signature", u.signature())),
+                _ => None,
+            };
+            if let Some(class) = bad {
+                out.violations.push(Violation {
+                    property: PROP,
+                    class,
+                    detail: format!("deep run {} thread {} op {} (peer seeds {:?})", run, t, i, peer_seeds),
+                    replay: json!({"kind": "deep-rerun", "deep": true, "seed": seed, "run": run}),
+                    run: (1 << 41) + 100 + run,
+                });
+                break 'outer;
+            }
+        }
+    }
+    out
+}
+
+/// entry of the deep binary: `falcon-sim deepruns C16 <tier> <seed> <outfile>`
+pub fn deepruns_main(tier: Tier, seed: u64, outfile: &str) -> i32 {
+    let w = report::workers();
+    let runs = if tier == Tier::Quick { 160u64 } else { 4000 };
+    let mut out = report::parallel_runs(runs, w, |run| deep_run(seed, run));
+    for (run, what) in report::take_dead_runs(&mut out.stats) {
+        out.violations.push(Violation {
+            property: PROP,
+            class: format!("run's process died: {}", what),
+            detail: format!("deep run {}", run),
+            replay: json!({"kind": "deep-rerun", "deep": true, "seed": seed, "run": run}),
+            run: (1 << 41) + 100 + run,
+        });
+    }
+    match std::fs::write(outfile, out.to_bytes()) {
+        Ok(_) => 0,
+        Err(_) => 2,
+    }
+}
+
 fn sizes(tier: Tier) -> (u64, u64, usize) {
     match tier {
         Tier::Quick => (48u64, 12u64, 60usize),
@@ -435,6 +559,13 @@ pub fn rerun(tier: Tier, seed: u64, run: u64) -> Option<RunOutcome> {
 }
 
 pub fn replay(doc: &Value) -> Option<String> {
+    if doc.get("kind").and_then(|k| k.as_str()) == Some("deep-rerun") {
+        // re-execute the deep run (a pure function of seed and run index) in its own process
+        let seed = doc.get("seed")?.as_u64()?;
+        let run = doc.get("run")?.as_u64()?;
+        let o = crate::isolate::isolated(|| deep_run(seed, run).to_bytes(), crate::isolate::run_timeout_s()).ok()?;
+        return RunOutcome::from_bytes(&o)?.violations.first().map(|v| v.class.clone());
+    }
     let plan = Plan::from_json(doc)?;
     execute_dyn(&plan).0.map(|c| c.0)
 }
@@ -466,7 +597,17 @@ pub fn check(tier: Tier, seed: u64) -> i32 {
         });
         rep.absorb(out);
     }
-    rep.rule = "a case is one signature exchange: for a falcon-rust key pair (from a fresh seed, or from one of the pinned seeds whose key generation takes a rare branch) and a reference key pair (PQClean keygen with simulator-seeded randombytes; either the next one, or one selected among 8000 + 3000 (thorough 60000 + 24000) for an extreme feature: a coefficient +-127 in F or in the recomputed G, a coefficient of f or g at its field limit, a public key that is not a unit, a public-key coefficient 0 or q-1), each message is signed in all four (signer, key-origin) combinations, with keys crossing as bytes, and every signature is checked by both verifiers after re-framing (header 0x50|logn <-> 0x30|logn, zero padding stripped / added); before that, key bytes are imported and re-exported on this side and the public key is re-derived from the imported secret key; all exchanges are non-trivial; distinct = distinct signature bytes".into();
+    match crate::props::run_deep_batch(PROP, tier, seed) {
+        Ok(Some(o)) => rep.absorb(o),
+        Ok(None) => {
+            rep.stats.notes.insert("NOTE: no instrumented (deep) build available; the concurrent-verifiers batch was skipped".into());
+        }
+        Err(e) => {
+            eprintln!("HARNESS-ERROR: {}", e);
+            return 2;
+        }
+    }
+    rep.rule = "a case is one signature exchange: for a falcon-rust key pair (from a fresh seed, or from one of the pinned seeds whose key generation takes a rare branch) and a reference key pair (PQClean keygen with simulator-seeded randombytes; either the next one, or one selected among 8000 + 3000 (thorough 60000 + 24000) for an extreme feature: a coefficient +-127 in F or in the recomputed G, a coefficient of f or g at its field limit, a public key that is not a unit, a public-key coefficient 0 or q-1), each message is signed in all four (signer, key-origin) combinations, with keys crossing as bytes, and every signature is checked by both verifiers after re-framing (header 0x50|logn <-> 0x30|logn, zero padding stripped / added); before that, key bytes are imported and re-exported on this side and the public key is re-derived from the imported secret key; a deep batch (instrumented build) has 2-5 baton-scheduled threads, each mostly with its own reference public key, verify re-framed reference signatures under function-entry pre-emption; all exchanges are non-trivial; distinct = distinct signature bytes".into();
     rep.assumptions = vec![
         "PQClean (pqcrypto-falcon 0.3.0) is the reference on honest traffic; no faults are injected here (a damaged exchange promises nothing)".into(),
         "reference signatures whose compressed part exceeds this library's fixed frame cannot be re-framed and are counted as skipped".into(),
